@@ -12,7 +12,7 @@ from .common import (EXIT_DEADLOCK, EXIT_INVARIANT, EXIT_STEP_BUDGET, HarnessErr
 PHASES = ["after_open", "after_symbol_db", "after_resolution", "after_alternatives",
           "after_section_resolution", "after_set_size", "after_layout", "write_start",
           "write_body_done", "write_flushed", "write_unmapped", "after_write", "before_verify"]
-ACTIONS = ["rewrite", "append", "replace", "touch"]
+ACTIONS = ["rewrite", "append", "replace", "touch", "replace_old", "touch_old"]
 
 
 def fnv32(s):
@@ -85,6 +85,11 @@ def action_cmd(action, name):
         return f"printf 'xx' >> {name}"
     if action == "replace":
         return f"cp {name} {name}.nw && mv {name}.nw {name}"
+    if action == "replace_old":
+        # replaced by a file with an OLDER timestamp (restored from a cache, cp -p, mv of an old build)
+        return f"cp {name} {name}.nw && touch -d '2001-02-03 04:05:06' {name}.nw && mv {name}.nw {name}"
+    if action == "touch_old":
+        return f"touch -d '2001-02-03 04:05:06' {name}"
     return f"touch {name}"
 
 
